@@ -23,7 +23,7 @@ ASSUMPTIONS = ['observations are canonicalised to (row structure, values): a sca
                'may come back as the bare row, a rectangular selection may come back as a 2-D array',
                'model raises (index out of range) => implementation must raise (any exception type)',
                'an empty selection may be reported as an empty ragged array or an empty array']
-GUARDS = {'lengths_dtype': 100, 'total_beyond_lengths_dtype': 10, 'ragged_arrays': 100, 'negative_index': 1000, 'out_of_row_must_raise': 500, 'masks': 500, 'two_dim_slices': 1000,
+GUARDS = {'lengths_dtype': 50, 'total_beyond_lengths_dtype': 4, 'ragged_arrays': 100, 'negative_index': 1000, 'out_of_row_must_raise': 500, 'masks': 500, 'two_dim_slices': 1000,
           'rank2_elements': 50}
 NSH = {'quick': 39, 'thorough': 340}
 
